@@ -4,7 +4,8 @@
 (* lines.                                                                               *)
 (*   entry = [name, dom, typ, colon, dollar, tail, disp]                                *)
 (*     type field is "dom:typ" if colon, else "dom" alone (malformed: line skipped)     *)
-(*     location is "p.html#" + ("$" if dollar else tail)                                *)
+(*     location is "p.html#" + ("$" if dollar else tail), or EMPTY (eloc: what Sphinx   *)
+(*     writes for the root document of a dirhtml build: two blanks after the priority)  *)
 (*     disp is the display name; "-" (or nothing) means "same as name" -> no text       *)
 (* M  Entry: one loop iteration (skip without colon; first py:module wins; "$" is       *)
 (*    replaced by the name; "-" -> no text; assignment into the nested mapping).        *)
@@ -17,7 +18,7 @@ CONSTANTS MaxLines,
 
 Names == {"m", "m x"}
 Types == {<<"py", "module", TRUE>>, <<"py", "func", TRUE>>, <<"bad", "", FALSE>>}
-Entries == [name : Names, ty : Types, dollar : BOOLEAN, disp : {"-", "T"}]
+Entries == {e \in [name : Names, ty : Types, dollar : BOOLEAN, eloc : BOOLEAN, disp : {"-", "T"}] : e.eloc => ~e.dollar}
 Frag(e, k) == "q" \o ToString(k)          \* literal fragment of line k (distinguishes lines)
 
 VARIABLES lines, pos, res
@@ -27,7 +28,7 @@ Init == /\ lines \in UNION {[1..n -> Entries] : n \in 0..MaxLines}
         /\ pos = 1 /\ res = <<>>
 
 Key(e)  == <<e.ty[1], e.ty[2], e.name>>
-Loc(e, k) == "p.html#" \o (IF e.dollar THEN e.name ELSE Frag(e, k))
+Loc(e, k) == IF e.eloc THEN "" ELSE "p.html#" \o (IF e.dollar THEN e.name ELSE Frag(e, k))
 Val(e, k) == [key |-> Key(e), loc |-> Loc(e, k), text |-> IF e.disp = "-" THEN "NONE" ELSE e.disp]
 
 Has(r, key) == \E x \in 1..Len(r) : r[x].key = key
